@@ -4,6 +4,7 @@ import (
 	"context"
 	"errors"
 	"fmt"
+	"runtime"
 	"strings"
 	"sync"
 
@@ -388,6 +389,14 @@ func c20Config(c *fw.Ctx, mon *c20Monitor, sg c20Sig, decl []int, bmin, bmax int
 				}
 				c20Catchable(c, e, evalCtx, form, input)
 				c.Count("panic_error_cases", 1)
+			case 4:
+				var re runtime.Error
+				if err == nil || !errors.As(err, &re) {
+					c.Violate(fw.Violation{Key: "panic-runtime-error-not-wrapped", What: fmt.Sprintf("a Go runtime panic (index out of range) inside the function: err=%v, errors.As(runtime.Error) fails: the original is no longer wrapped", err), Input: input})
+					return
+				}
+				c20Catchable(c, e, evalCtx, form, input)
+				c.Count("panic_runtime_cases", 1)
 			case 3:
 				ev, ok := err.(interface{ ErrorValue() types.MalType })
 				if err == nil || !ok || ev.ErrorValue() != "boom-value" {
@@ -421,7 +430,7 @@ func c20Config(c *fw.Ctx, mon *c20Monitor, sg c20Sig, decl []int, bmin, bmax int
 		for i := range good {
 			good[i] = c20Good(paramAt(i), pool)
 		}
-		for mode := 0; mode <= 3; mode++ {
+		for mode := 0; mode <= 4; mode++ {
 			one(good, mode)
 		}
 		for i := 0; i < n; i++ {
